@@ -131,7 +131,8 @@ func (k Keeper) GetNextSuperNodes(ctx sdk.Context, status uint32, reputation flo
 	snodes := k.GetAllSuperNodes(ctx)
 	i := uint8(round[0])
 	if len(snodes) > 0 {
-		for {
+		// examine every super node at most once, starting at the round-robin cursor
+		for tried := 0; tried < len(snodes); tried++ {
 			if i >= uint8(len(snodes)) {
 				i = 0
 			}
@@ -155,16 +156,6 @@ func (k Keeper) GetNextSuperNodes(ctx sdk.Context, status uint32, reputation flo
 						roundStore.Set(types.NodeRoundKey(), []byte{i + 1})
 					}
 					return snodes[i]
-				}
-			}
-			// if all super nodes don't satify, quit
-			if round[0] == 0 {
-				if i == uint8(len(snodes)-1) {
-					break
-				}
-			} else {
-				if i == uint8(round[0]-1) {
-					break
 				}
 			}
 			i++
